@@ -349,6 +349,37 @@ def source_hash(paths: list[str]) -> str:
     return h.hexdigest()[:16]
 
 
+def pins_changed(out, paths) -> bool:
+    """compares the normalised-AST hash of the modelled sources with the one recorded for the tree the models
+    were written against (pins.json); a change never alarms by itself: it is reported in the evidence and the
+    quick tier explores three times as many cases"""
+    h = source_hash(paths)
+    out.coverage["source_pin"] = h
+    try:
+        rec = json.load(open(os.path.join(VERIF, "pins.json")))
+    except Exception:
+        rec = {}
+    key = ",".join(paths)
+    changed = key in rec and rec[key] != h
+    out.coverage["source_pins_changed"] = changed
+    if changed and out.tier == "quick":
+        out.boost = 3
+    return changed
+
+
+def coqchk_axioms(pid: str) -> dict:
+    """independent re-check of the compiled property file and everything it depends on (thorough tier)"""
+    with build_lock():
+        rc, o = sh(f"timeout 3000 coqchk -silent -o -Q . XV XV.Properties.{pid}", cwd=COQ, timeout=3100)
+    ax = []
+    m = re.search(r"\* Axioms:(.*?)(\n\* |\Z)", o, re.S)
+    if m:
+        body = m.group(1).strip()
+        if "<none>" not in body:
+            ax = [l.strip() for l in body.split("\n") if l.strip()]
+    return {"rc": rc, "axioms": ax, "tail": o[-1500:]}
+
+
 # ---------------------------------------------------------------- findings
 def load_known_findings() -> list[dict]:
     p = os.path.join(VERIF, "known_findings.json")
@@ -369,6 +400,7 @@ class Outcome:
         self.coverage: dict = {"samples": []}
         self.assumptions: list[str] = []
         self.known = [k for k in load_known_findings() if k.get("status", "open") == "open"]
+        self.boost = 1
         if os.path.isdir(REPLAYS):                      # replay files of earlier runs of this check
             for f in os.listdir(REPLAYS):
                 if f.startswith(pid + "-"):
